@@ -4,13 +4,19 @@ LEAN_MODULE = "Hw.Props.C08"
 NS = "Hw.Props.C08."
 THEOREMS = [NS + t for t in """C08_consts C08_einval_unchanged C08_einval_cases C08_plan C08_sets_root C08_minus_compl_is_inter
 C08_sets_object C08_sets_exact C08_survivors C08_survivors_sets C08_removal_rule C08_pu_rule C08_numa_rule C08_root_kept C08_wf_sets C08_specials C08_specials_local C08_merge_decision C08_merge_exact C08_merge_preserves_setsok C08_wf_sets_whole C08_sets_exact_whole C08_render_links C08_render_no_children C08_render_levels C08_typing_preserved C08_restrict_links C08_restrict_no_children C08_restrict_levels C08_repeat C08_repeat_exact
-C08_reorder_without_removal_reachable""".split()]
+C08_reorder_without_removal_reachable
+C08_side_distances C08_side_distances_types_aligned C08_side_distances_repeat C08_side_cpukinds C08_side_memattrs""".split()]
 CHECK_MODULES = ["Hw.Props.C08"]
 TRUSTED = ["hwloc_bitmap_not / andnot / intersects / isincluded / iszero / set / compare_first enter the model through their "
            "set-level meaning on finite or cofinite sets (Nat masks, CSet); the bitmap layer itself is C03",
            "harness/dump.h + lean/Driver/Topo.lean + buildTree in lean/Driver/Restrict.lean: the BEFORE dump is turned into the "
            "four-list tree the model starts from (objects in DFS order, children lists in list order)",
-           "tools/gen_restrict.py (constants printed by the harness compiled against the real headers and topology.c)"]
+           "tools/gen_restrict.py (constants printed by the harness compiled against the real headers and topology.c)",
+           "side structures: the observation code of harness/h_restrict.c (side_dump: hwloc_distances_get/_get_name/_release, "
+           "hwloc_cpukinds_get_nr/_get_info, hwloc_memattr_get_name/_get_flags/_get_targets/_get_initiators/_get_value) and the "
+           "parser/renderer lean/Driver/RestrictSide.lean; the state the prediction starts from is ADOPTED from the observation made "
+           "before the first restrict (plus the forced efficiencies of the CPU kinds, read from the private struct because no public "
+           "call returns them); the models that carry it are the ones of C13/C14/C15 (Hw.Dist, Hw.MemAttrs, Hw.CpuKinds)"]
 ASSUMPTIONS = ["exactness theorems (C08_sets_root, C08_sets_exact, C08_sets_exact_whole, C08_repeat_exact) assume SetsOK (okT: set "
                "inside complete set, complete sets of normal/memory children inside the parent's, no sets on I/O and Misc objects: C01 "
                "clauses) on the initial topology only (it is proved to be preserved by every call); the driver evaluates okT on every "
@@ -20,7 +26,11 @@ MODELLED = ("modelled: hwloc_topology_restrict flag validation, pre-checks, drop
             "restrict_object_by_cpuset/_by_nodeset, unlink_and_free_single_object (childless case), hwloc__reorder_children, "
             "hwloc_connect_levels, hwloc_filter_levels_keep_structure (level merging is modelled, the comparison is exact, not modulo); "
             "exercised but not modelled: connect_children/special levels (judged by wfCheck), symmetric_subtree, total_memory "
-            "(wfCheck clause), distances/memattrs/cpukinds post-processing (C13/C14/C15), allocation failures")
+            "(wfCheck clause), allocation failures; the post-restrict fixups of the side structures (distances invalidation + lazy "
+            "refresh with in-place sub-matrix compaction, cpukinds restrict + re-ranking, memattrs need_refresh + lazy refresh) are "
+            "MODELLED by composing the C13/C14/C15 models (lean/Hw/Topo/RestrictSide.lean) against the objects and root cpuset of the "
+            "tree predicted by the C08 model, and compared with the public-API observation after the restricts (after the last one of "
+            "every chain and after half of the others, so that stale caches reach the next call)")
 
 
 def run_engines(tier, seed):
